@@ -20,7 +20,7 @@ TIME = {'quick': 110, 'thorough': 1500}
 
 @st.composite
 def cases(draw, tier='quick'):
-    dom = draw(gen.domains(1, 4, 1, 5, cap=625))
+    dom = draw(gen.domains(1, 4 if tier == 'quick' else 5, 1, 5, cap=625 if tier == 'quick' else 3125))
     attrs, shape = dom['attrs'], dom['shape']
     meas = draw(inf.measurement_specs(attrs, shape, 1, 4, max_proj=2, max_cells=25,
                                       kinds=['identity', 'identity', 'sparse_eye', 'dense', 'prefix', 'sparse_prefix', 'scaled', 'total']))
